@@ -70,7 +70,7 @@ func clipM(m int) int {
 }
 
 func runC02(w *mon.W) {
-	total := w.Scale(30000, 1500000)
+	total := w.Scale(30000, 6000000)
 	g := gen.New(w.Rng)
 	g.MaxData = 1<<20 - 23
 	gs := gen.Small(w.Rng)
